@@ -3,7 +3,7 @@
 package otto
 
 // C10-H2: the exec / lastIndex protocol (ES5 15.10.6.2) on top of the matcher,
-// for the pattern /a/ (global or not), an ASCII subject of 0..3 symbolic bytes
+// for the patterns /a/, /a*/ and /$/ (global or not), an ASCII subject of 0..3 symbolic bytes
 // and any double as lastIndex.
 func VerifH_C10_exec_protocol() {
 	vm := New()
@@ -16,11 +16,12 @@ func VerifH_C10_exec_protocol() {
 	li := verifNondetFloat64()
 	vm.Set("s", s)
 	vm.Set("li", li)
+	pat := verifChoose(3) // /a/, /a*/ (can match the empty string), /$/ (matches only at the end)
+	src := []string{"/a/", "/a*/", "/$/"}[pat]
 	if global {
-		vm.Run("var re = /a/g")
-	} else {
-		vm.Run("var re = /a/")
+		src += "g"
 	}
+	vm.Run("var re = " + src)
 	v, ok := verifRun(vm, "re.lastIndex = li; var r = re.exec(s); r === null ? -1 : r.index")
 	verifCover("reached")
 	verifAssert(ok, "exec does not throw")
@@ -40,17 +41,32 @@ func VerifH_C10_exec_protocol() {
 		}
 		start = i
 	}
-	want := -1
-	for k := start; k < n; k++ {
-		if s[k] == 'a' {
-			want = k
-			break
+	want, mlen := -1, 1
+	switch pat {
+	case 0:
+		for k := start; k < n; k++ {
+			if s[k] == 'a' {
+				want = k
+				break
+			}
 		}
+	case 1:
+		want, mlen = start, 0
+		for k := start; k < n && s[k] == 'a'; k++ {
+			mlen++
+		}
+	default:
+		want, mlen = n, 0
 	}
 	verifAssert(got == float64(want), "15.10.6.2: index of the first match at or after lastIndex")
+	if want >= 0 {
+		ml, _ := vm.Run("r[0].length")
+		mf, _ := ml.ToFloat()
+		verifAssert(mf == float64(mlen), "15.10.6.2: the matched text")
+	}
 	if global {
 		if want >= 0 {
-			verifAssert(la == float64(want+1), "15.10.6.2 step 11: lastIndex = end of the match")
+			verifAssert(la == float64(want+mlen), "15.10.6.2 step 11: lastIndex = end of the match")
 		} else {
 			verifAssert(la == 0, "15.10.6.2 step 9.a: no match resets lastIndex")
 		}
